@@ -556,6 +556,86 @@ def gen_mp_limits(ctx, thorough):
             yield Case("mp", bs, ct, [body[j:j + 1] for j in range(len(body))], exp, "mp-linelimit" if ok else "mp-linetoolong")
 
 
+def gen_mp_borders(ctx, thorough):
+    """boundary look-alikes against the borders: (a) every cut position inside and around each
+    look-alike of a value (2-way, and 3-way with a second cut 1..|delimiter|+1 bytes later);
+    (b) a value longer than the buffer whose look-alike straddles the end of the *full* window
+    (filler of bufsize+4-k bytes before it, k = 0..|delimiter|+5), whole / cut at the window end /
+    byte-by-byte; buffer sizes 256 and 257 (+300 in thorough)"""
+    rng = ctx.rng
+    sizes = [256, 257, 300] if thorough else [256, 257]
+    for boundary in ([b"B0", b"AaB03x", b"-----------------------------1234567890"] if thorough else [b"B0", b"AaB03x"]):
+        d = b"\r\n--" + boundary
+        ct = MULTIPART + b"; boundary=" + boundary
+        las = lookalikes(rng, boundary)
+        # (a)
+        for la in las:
+            for pre, post in ((b"ab", b"cd"), (b"", b""), (b"\r", b"\r\n")):
+                v = pre + la + post
+                parts = [{"name": b"k", "filename": b"f.bin", "ctype": None, "enc": None, "value": v},
+                         {"name": b"z", "filename": None, "ctype": None, "enc": None, "value": b"t"}]
+                if not mp_fresh(boundary, parts):
+                    continue
+                body = enc_multipart(rng, boundary, parts)
+                exp = expected_multipart(parts)
+                v0 = body.index(v, body.index(b"\r\n\r\n")) if v else body.index(b"\r\n\r\n") + 4
+                for bs in sizes:
+                    for a in range(max(0, v0 - 2), min(len(body), v0 + len(v) + len(d) + 3) + 1):
+                        yield Case("mp", bs, ct, split_at(body, [a]), exp, "mp-border-2way")
+                        for gap in ((1, len(d), len(d) + 1) if thorough else (1, len(d))):
+                            if a + gap <= len(body):
+                                yield Case("mp", bs, ct, split_at(body, [a, a + gap]), exp, "mp-border-3way")
+        # (b)
+        for bs in sizes:
+            win = bs + 4
+            for la in (las[::2] + [d[:-1], d[:4], d[:5]] if thorough else las[::3] + [d[:-1], d[:4], d[:5]]):
+                for k in range(0, len(d) + 6):
+                    if win - k < 0:
+                        continue
+                    v = b"x" * (win - k) + la + b"yy" + (b"\r" if k % 2 else b"")
+                    parts = [{"name": b"k", "filename": None, "ctype": None, "enc": None, "value": v}]
+                    if not mp_fresh(boundary, parts):
+                        continue
+                    body = enc_multipart(rng, boundary, parts)
+                    exp = expected_multipart(parts)
+                    v0 = body.index(b"\r\n\r\n") + 4
+                    yield Case("mp", bs, ct, [body], exp, "mp-border-window")
+                    yield Case("mp", bs, ct, split_at(body, [v0]), exp, "mp-border-window")
+                    yield Case("mp", bs, ct, split_at(body, [v0, v0 + win]), exp, "mp-border-window")
+                    yield Case("mp", bs, ct, split_at(body, [v0 + win - k, v0 + win]), exp, "mp-border-window")
+                    if k % 4 == 0:
+                        yield Case("mp", bs, ct, [body[j:j + 1] for j in range(len(body))], exp, "mp-border-window")
+
+
+def gen_mp_linefill(ctx, thorough):
+    """header lines that exactly fill the buffer (bufsize+3 bytes + CR = the whole buffer), for each of the
+    three header kinds, cut before the CR / between CR and LF / after the LF / one byte into the next line,
+    whole, byte-by-byte; one byte more is rejected; buffer sizes 256, 257 (+300 thorough)"""
+    rng = ctx.rng
+    ct = MULTIPART + b"; boundary=XyZ"
+    for bs in ([256, 257, 300] if thorough else [256, 257]):
+        for which in ("name", "filename", "ctype", "enc"):
+            for dl, ok in ((2, True), (3, True), (4, False)):
+                p = {"name": b"n", "filename": b"f" if which == "filename" else None,
+                     "ctype": b"t/x" if which == "ctype" else None, "enc": b"binary" if which == "enc" else None,
+                     "value": b"v\r\n--Xy" + b"w" * 300}
+                fixed = {"name": len(b'Content-Disposition: form-data; name=""'),
+                         "filename": len(b'Content-Disposition: form-data; name="n"; filename=""'),
+                         "ctype": len(b"Content-Type: "), "enc": len(b"Content-Transfer-Encoding: ")}[which]
+                p[which] = (b"q" if which != "ctype" else b"t") * (bs + dl - fixed)
+                parts = [p, {"name": b"z", "filename": None, "ctype": None, "enc": None, "value": b""}]
+                body = enc_multipart(rng, b"XyZ", parts)
+                exp = expected_multipart(parts) if ok else None
+                tag = "mp-linefill" if ok else "mp-linefill-toolong"
+                key = {"name": b"name=", "filename": b"filename=", "ctype": b"Content-Type: ", "enc": b"Content-Transfer-Encoding: "}[which]
+                e = body.index(b"\r\n", body.index(key))     # the CR that ends the long line
+                yield Case("mp", bs, ct, [body], exp, tag)
+                for a in (e - 1, e, e + 1, e + 2, e + 3):
+                    yield Case("mp", bs, ct, split_at(body, [a]), exp, tag)
+                    yield Case("mp", bs, ct, split_at(body, [a, a + 1]), exp, tag)
+                yield Case("mp", bs, ct, [body[j:j + 1] for j in range(len(body))], exp, tag)
+
+
 def gen_mp_malformed(ctx, thorough):
     rng = ctx.rng
     n = 40000 if thorough else 1500
@@ -629,7 +709,8 @@ class Spec:
     lean_targets = ["Mhd.Props.C15", "drv_pp"]
     required_theorems = ["Mhd.C15.url_roundtrip_tokens", "Mhd.C15.url_every_call_accepts", "Mhd.C15.url_roundtrip",
                          "Mhd.C15.url_split_independent", "Mhd.C15.url_no_fault",
-                         "Mhd.C15.multipart_all_inputs"]
+                         "Mhd.C15.multipart_all_inputs", "Mhd.C15.multipart_roundtrip",
+                         "Mhd.C15.multipart_split_independent"]
     trusted_base = ["Lean 4 kernel", "axioms: propext, Classical.choice, Quot.sound at most (audited per theorem)",
                     "hand-written model lean/Mhd/Model/PP*.lean tied to postprocessor.c by this run's correspondence "
                     "(it includes small models of MHD_unescape_plus, MHD_str_pct_decode_in_place_lenient_, "
@@ -715,6 +796,8 @@ class Spec:
         yield from gen_url_malformed(ctx, th)
         yield from gen_mp_cases(ctx, th, nested=False)
         yield from gen_mp_limits(ctx, th)
+        yield from gen_mp_borders(ctx, th)
+        yield from gen_mp_linefill(ctx, th)
         yield from gen_mp_cases(ctx, th, nested=True)
         yield from gen_mp_malformed(ctx, th)
 
